@@ -9,11 +9,7 @@ mod spec {
     include!("../../spec/flow_in.rs");
 }
 use spec::*;
-#[allow(dead_code)]
-mod mw {
-    include!("_miniwriter.rs");
-}
-use mw::MiniWriter;
+include!("_miniwriter.rs"); // at module level: `kani` must resolve to the replay shim in native replays
 
 const MAXV: u64 = s2n_quic_core::varint::MAX_VARINT_VALUE;
 
